@@ -112,6 +112,10 @@ func c07Sels() []c07Sel {
 			names: []string{"n", "c", "sk"}, cols: []int{0, 1, 2}, kind: "signed", aggr: true},
 		{sel: "select float(value) as f, count(1) as c where true group by f",
 			names: []string{"f", "c"}, cols: []int{0, 1}, kind: "signedf", aggr: true},
+		// Boolean group keys (they reach the order plan as the texts true / false,
+		// which sort like the Booleans: false first)
+		{sel: "select float(value) > 1.2 as b, is_int(value) as ii, count(1) as c, sum(strlen(key)) as sk where true group by b, ii",
+			names: []string{"b", "ii", "c", "sk"}, cols: []int{0, 1, 2, 3}, kind: "num", aggr: true},
 		// fields defined through other fields: their type is known only once the names are resolved
 		{sel: "select key, value as v, v + '!' as vx, strlen(v) as l, l * 2 - 1 as m where true",
 			names: []string{"v", "vx", "l", "m"}, cols: []int{1, 2, 3, 4}, kind: "text"},
